@@ -37,6 +37,7 @@ func main() {
 		Run:             run,
 		ParentSetup:     parentSetup,
 		Setup:           func(c *harness.Ctx) { cli = os.Getenv("VERIF_CLI") },
+		SpinIsViolation: true,
 		MinNonTrivial:   20,
 		RaceIsViolation: true,
 		CaseTimeout:     90 * time.Second,
